@@ -81,9 +81,15 @@ def sample(
         if _is_clifford_circuit(program):
             # If all non-measurement operations are clifford, use the Clifford
             # simulator.
-            return clifford_simulator.CliffordSimulator(seed=seed).run(
-                program, param_resolver=param_resolver, repetitions=repetitions
-            )
+            try:
+                return clifford_simulator.CliffordSimulator(seed=seed).run(
+                    program, param_resolver=param_resolver, repetitions=repetitions
+                )
+            except TypeError:
+                # An operation can have stabilizer effect (a Clifford matrix) without the stabilizer
+                # simulator knowing how to apply it, e.g. a two-qubit MatrixGate or a controlled
+                # gate; the general simulators below can run it.
+                pass
         if protocols.has_unitary(program):
             return sparse_simulator.Simulator(dtype=dtype, seed=seed).run(
                 program=program, param_resolver=param_resolver, repetitions=repetitions
